@@ -149,14 +149,46 @@ func propC04(c *Ctx) {
 					if debugOn() {
 						fmt.Printf("DEBUG R4.2 arg=%s unfold=%s stack=%d\n", sym(s.Args[cs.Param-1]), sym(u.v), len(u.stack))
 					}
+					// the accessor taken from a package-level table by its constant name (taskFields["src_name"](ctx))
+					if call, ok := u.v.(*ssa.Call); ok && staticCallee(call) == nil {
+						for _, tc := range wctxThroughTable(call) {
+							if tc.isConst && tc.name == "SrcName" {
+								a, _ := ctxValueOf("SrcName", u.with(tc.arg))
+								if p, ok := a.v.(*ssa.Parameter); ok && a.top() && p.Parent() == impl {
+									okS = true
+								}
+							}
+						}
+					}
 					if call, ok := u.v.(*ssa.Call); ok && calleeName(call) == modPath+"/wctx.SrcName" {
-						a := unfold(u.with(call.Call.Args[0]))
+						a, _ := ctxValueOf("SrcName", u.with(call.Call.Args[0]))
 						if p, ok := a.v.(*ssa.Parameter); ok && a.top() && p.Parent() == impl {
 							okS = true
 						}
 					}
 				}
 				okI := ci != nil && ci.Op == "=" && boundTo(s, ci.Param, fDigName)
+				if !okI && ci != nil && ci.Op == "=" && ci.Param > 0 && ci.Param <= len(s.Args) {
+					// the name read back from a context the method stamped with its own name just before
+					u := unfold(s.argC(ci.Param - 1))
+					if call, ok := u.v.(*ssa.Call); ok {
+						var ctxArg ssa.Value
+						if calleeName(call) == modPath+"/wctx.IGName" {
+							ctxArg = call.Call.Args[0]
+						} else if staticCallee(call) == nil {
+							for _, tc := range wctxThroughTable(call) {
+								if tc.isConst && tc.name == "IGName" {
+									ctxArg = tc.arg
+								}
+							}
+						}
+						if ctxArg != nil {
+							if v, set := ctxValueOf("IGName", u.with(ctxArg)); set && isLoadOfField(stripConv(v.v), fDigName) {
+								okI = true
+							}
+						}
+					}
+				}
 				c.Check("R4.2", s.key()+"/keyed", instrPos(s.Call), okS && okI, fmt.Sprintf("destination delete keyed by the caller's context source name and the integration's own name; where: %v", b.Where))
 			}
 		}
@@ -264,10 +296,12 @@ func propC04(c *Ctx) {
 				}
 				n++
 				// loadTasks includes the helpers only it calls (inlined view)
-				if !allowedStampers[name][fnName(fn)] && !(allowedStampers[name]["shovel.loadTasks"] && lm.reg.Has(fn)) {
+				// a method of the integration may put its own name (and nothing else) into the context it works with
+				ownMethod := strings.HasSuffix(name, ".WithIGName") && fn.Signature.Recv() != nil && repoNamedIs(fn.Signature.Recv().Type(), "dig", "Integration")
+				if !allowedStampers[name][fnName(fn)] && !ownMethod && !(allowedStampers[name]["shovel.loadTasks"] && lm.reg.Has(fn)) {
 					bad = append(bad, fnName(fn)+" at "+w.Pos(instrPos(ci)))
 				}
-				if fnName(fn) == "(dig.Integration).Insert" {
+				if fnName(fn) == "(dig.Integration).Insert" || ownMethod {
 					// must re-stamp with its own name
 					arg := ci.Common().Args[1]
 					okName := false
@@ -292,7 +326,7 @@ func propC04(c *Ctx) {
 						}
 					}
 					if !okName {
-						bad = append(bad, "Insert re-stamps ig_name with something other than its own name at "+w.Pos(instrPos(ci)))
+						bad = append(bad, fn.Name()+" re-stamps ig_name with something other than its own name at "+w.Pos(instrPos(ci)))
 					}
 				}
 			}
@@ -307,6 +341,16 @@ func propC04(c *Ctx) {
 		okStamp := map[string]bool{}
 		for _, r := range returnsOf(get) {
 			v := stripConv(returnValues(r)[0])
+			if call, ok := v.(*ssa.Call); ok && staticCallee(call) == nil {
+				// the stamps as entries of a package-level table of accessors consulted with the name: each entry
+				// reads its context value from what it is handed, and it is handed the row context's ctx
+				for _, tc := range wctxThroughTable(call) {
+					if isLoadOfField(tc.arg, fLwcCtx) {
+						okStamp[tc.name] = true
+					}
+				}
+				continue
+			}
 			if call, ok := v.(*ssa.Call); ok {
 				n := calleeName(call)
 				if strings.HasPrefix(n, modPath+"/wctx.") && len(call.Call.Args) == 1 && isLoadOfField(call.Call.Args[0], fLwcCtx) {
@@ -426,4 +470,63 @@ func derivesFromParamCtx(v ssa.Value, fn *ssa.Function) bool {
 		}
 	}
 	return false
+}
+
+// wctxThroughTable: call invokes an entry of a package-level table of functions (funcTableOf); for every entry it
+// can be that does nothing but `return wctx.X(p)` with p one of its parameters: X, and what the call hands in
+// for p. isConst: the entry was picked by a constant key (exactly one result then).
+type tableCtxRead struct {
+	name    string // X of wctx.X
+	arg     ssa.Value
+	isConst bool
+}
+
+func wctxThroughTable(call *ssa.Call) []tableCtxRead {
+	entries, key, isConst, ok := funcTableOf(call.Call.Value)
+	if !ok {
+		return nil
+	}
+	var out []tableCtxRead
+	for _, k := range sortedKeys(entries) {
+		if isConst && k != key {
+			continue
+		}
+		f := entries[k]
+		rets := returnsOf(f)
+		if f.Blocks == nil || len(rets) != 1 || len(returnValues(rets[0])) != 1 {
+			return nil
+		}
+		inner, isCall := stripConv(returnValues(rets[0])[0]).(*ssa.Call)
+		if !isCall || !strings.HasPrefix(calleeName(inner), modPath+"/wctx.") || len(inner.Call.Args) != 1 {
+			return nil
+		}
+		p, isP := stripConv(inner.Call.Args[0]).(*ssa.Parameter)
+		if !isP || p.Parent() != f {
+			return nil
+		}
+		i := paramIndexOf(p)
+		if i < 0 || i >= len(call.Call.Args) {
+			return nil
+		}
+		out = append(out, tableCtxRead{strings.TrimPrefix(calleeName(inner), modPath+"/wctx."), call.Call.Args[i], isConst})
+	}
+	return out
+}
+
+// ctxValueOf: what wctx.<key>(ctx) yields, as far as the context is put together in sight: a context made by
+// wctx.With<key>(inner, v) yields v (set = true); one made by With<other>(inner, …) yields what inner yields;
+// anything else is the context the value is read from (set = false).
+func ctxValueOf(key string, ctx cval) (cval, bool) {
+	for d := 0; d < 6; d++ {
+		u := unfold(ctx)
+		call, ok := u.v.(*ssa.Call)
+		if !ok || !strings.HasPrefix(calleeName(call), modPath+"/wctx.With") || len(call.Call.Args) != 2 {
+			return u, false
+		}
+		if strings.TrimPrefix(calleeName(call), modPath+"/wctx.With") == key {
+			return unfold(u.with(call.Call.Args[1])), true
+		}
+		ctx = u.with(call.Call.Args[0])
+	}
+	return unfold(ctx), false
 }
